@@ -196,7 +196,7 @@ fn read_checks(store: &loose::Store, id: &ObjectId, kind: Kind, data: &[u8]) -> 
     let mut buf = vec![0xEE; 3]; // a dirty buffer must not matter
     match vkit::catch(|| store.try_find(id, &mut buf).map(|o| o.map(|d| (d.kind, d.data.to_vec())))) {
         Ok(Ok(Some((k, d)))) => {
-            if k != kind || d != data || (oracle_broken("c11-read") && data.len() == 64) {
+            if k != kind || d != data || (oracle_broken("c11-read") && data.len() == 256) {
                 return Err(format!("read-back: try_find returns {} of {} bytes, written {} of {} bytes", kind_name(k), d.len(), kind_name(kind), data.len()));
             }
         }
